@@ -30,7 +30,10 @@ META = {
     "level": "fault_enumeration",
     "technique": "exhaustive disconnect/shutdown/timeout injection at every byte offset and at response-phase points; "
                  "exactly-once accounting per request id at virtual-loop quiescence",
-    "level_text": "For each base request stream every byte offset is used as a fault point (orderly close, reset, "
+    "level_text": "For each base request stream (well-formed ones, and streams with a valid header block whose body "
+                  "framing the server itself then refuses with 400/close: invalid chunk-size line or chunk terminator, "
+                  "chunked / Content-Length / decompressed gzip body over max_body_size, unusable Content-Length or "
+                  "Transfer-Encoding, corrupt gzip) every byte offset is used as a fault point (orderly close, reset, "
                   "half-close, server shutdown, body-timeout expiry in virtual time), plus five response-phase points, "
                   "against raw delegates (sync/async) and the real Application (sync, async, @stream_request_body). "
                   "A recording proxy at the HTTPMessageDelegate boundary gives the per-request event history; the "
@@ -43,7 +46,8 @@ META = {
     "design_ref": "DESIGN.md §4 C05",
     "engine": "wire",
 }
-RULE = ("cases are (base stream, handler kind, fault kind, fault point); fault points are all byte offsets 0..len of the "
+RULE = ("cases are (base stream - well-formed or with a body the server refuses after headers_received -, handler kind, "
+        "fault kind, fault point); fault points are all byte offsets 0..len of the "
         "stream and 5 response-phase points; non-trivial = the point lies strictly inside the stream or in the response "
         "phase; distinct by the tuple")
 FLOORS = {"quick": 3000, "thorough": 40000}
@@ -53,7 +57,7 @@ ASSUMPTIONS = [
     "quiescence = peer gone, close_all_connections() awaited, two settle() rounds",
 ]
 REQUIRED_COUNTERS = ["oracle_evals", "started_requests", "terminal_close", "terminal_finish", "shutdown_completed",
-                     "body_prefix_evals"]
+                     "body_prefix_evals", "refused_after_headers_received"]
 SHARD_TIMEOUT = {"quick": 240, "thorough": 3000}
 
 HANDLERS = ["raw_sync", "raw_async", "app_sync", "app_async", "app_stream", "raw_early", "raw_early_async"]
@@ -66,6 +70,8 @@ def EXHAUSTIVE(tier):
     return ("byte-offset dimension: every offset 0..len(stream) of every base stream of <= 2000 bytes x {close, reset, "
             "half-close, server shutdown, body/idle timeout} (the two 16 KiB streams of the thorough tier: every offset of "
             "the first 300 and last 8 bytes, every 37th in between)"
+            + ("; for the 'refused:' streams (valid head, body framing then refused by the server) every offset from 3 "
+               "bytes before the end of the refused request's head" if tier == "quick" else "")
             + ("; every handler kind at every offset" if tier == "thorough" else "; handler kind rotates with the offset"))
 
 
@@ -144,6 +150,68 @@ def bases(tier):
         B.append(("obs-fold", [(b"POST / HTTP/1.1\r\nHost: x\r\nX-F: a\r\n b\r\nContent-Length: 3\r\n\r\n", b"abc", b"abc")], {}))
         B.append(("empty-chunked", [_req(b"POST", b"/", [H, (b"Transfer-Encoding", b"chunked")], _chunked([]), b"")], {}))
         B.append(("cl-zero", [_req(b"POST", b"/", [H, (b"Content-Length", b"0")], b"")], {}))
+    B.extend(refused_bases(tier))
+    return B
+
+
+def refused_bases(tier):
+    """Requests whose header block is valid (the delegate gets headers_received, possibly body chunks) but whose body
+    framing the server then refuses: it answers 400 / closes on its own initiative.  The delegate accounting is the
+    same as for any other started request; only "the whole body when told it finished" has no referent, so a finish
+    is never judged for these (kw "_refused" = indices of such requests; decoded = the bytes the valid part of the
+    body can justify).  Appended after all other bases so that existing base indices do not move."""
+    H = (b"Host", b"x")
+    TE = (b"Transfer-Encoding", b"chunked")
+    body20 = b"field1=a&field2=b+c!"
+    R = {"_refused": [0]}
+    B = []
+
+    # -- invalid chunk-size line: in the middle, at the very start, after a pipelined request, with async small reads
+    B.append(("refused:bad-chunk-size-mid", [_req(b"POST", b"/", [H, TE], b"5\r\nhello\r\n1\r\n \r\nzz\r\nworld!\r\n0\r\n\r\n",
+                                                  b"hello ")], dict(R)))
+    B.append(("refused:bad-chunk-size-first", [_req(b"PUT", b"/", [H, TE], b"xyz\r\nhello\r\n0\r\n\r\n", b"")], dict(R)))
+    B.append(("refused:chunk-size-line-too-long", [_req(b"POST", b"/", [H, TE], b"3\r\nabc\r\n" + b"0" * 70 + b"5\r\nhello\r\n0\r\n\r\n",
+                                                        b"abchello")], dict(R)))
+    B.append(("refused:chunk-bad-terminator", [_req(b"POST", b"/", [H, TE], b"5\r\nhelloXX6\r\nworld!\r\n0\r\n\r\n", b"hello")],
+              dict(R, chunk_size=2)))
+    B.append(("refused:last-chunk-bad-terminator", [_req(b"POST", b"/", [H, TE], b"5\r\nhello\r\n0\r\nXY", b"hello")], dict(R)))
+    B.append(("refused:get-then-bad-chunk-size", [_req(b"GET", b"/1", [H]),
+                                                   _req(b"POST", b"/2", [H, TE], b"2\r\nab\r\nG\r\ncde\r\n0\r\n\r\n", b"ab")],
+              {"_refused": [1]}))
+    B.append(("refused:bad-chunk-size-then-get", [_req(b"POST", b"/1", [H, TE], b"2\r\nab\r\nq3\r\ncde\r\n0\r\n\r\n", b"ab"),
+                                                   _req(b"GET", b"/2", [H])], dict(R)))
+    # -- body larger than max_body_size: chunked (total crosses the limit at the third chunk / at the first),
+    #    Content-Length (refused before any body byte is read), with Expect: 100-continue
+    B.append(("refused:chunked-over-limit", [_req(b"POST", b"/", [H, TE], _chunked([b"hello", b" ", b"world!"]), b"hello world!")],
+              dict(R, max_body_size=8)))
+    B.append(("refused:chunked-first-chunk-over-limit", [_req(b"POST", b"/", [H, TE], _chunked([body20]), body20)],
+              dict(R, max_body_size=19, chunk_size=8)))
+    B.append(("refused:cl-over-limit", [_req(b"POST", b"/", [H, (b"Content-Length", b"20")], body20)], dict(R, max_body_size=19)))
+    B.append(("refused:cl-over-limit-zero", [_req(b"POST", b"/", [H, (b"Content-Length", b"1")], b"x")], dict(R, max_body_size=0)))
+    B.append(("refused:expect-100-cl-over-limit", [_req(b"POST", b"/", [H, (b"Expect", b"100-continue"), (b"Content-Length", b"20")],
+                                                        body20)], dict(R, max_body_size=10)))
+    # -- body framing headers that cannot be honoured
+    B.append(("refused:cl-not-an-integer", [_req(b"POST", b"/", [H, (b"Content-Length", b"2x")], b"ab")], dict(R)))
+    B.append(("refused:cl-unequal-list", [_req(b"POST", b"/", [H, (b"Content-Length", b"3, 4")], b"abcd")], dict(R)))
+    B.append(("refused:cl-and-chunked", [_req(b"POST", b"/", [H, (b"Content-Length", b"5"), TE], _chunked([b"hello"]), b"hello")], dict(R)))
+    B.append(("refused:te-unsupported", [_req(b"POST", b"/", [H, (b"Transfer-Encoding", b"gzip, chunked")], _chunked([b"hello"]), b"hello")],
+              dict(R)))
+    # -- gzip request bodies with decompress_request: decompressed size over the limit, corrupt stream (bad CRC in
+    #    the trailer: every body byte is delivered before the error is seen; bad magic: none is)
+    zeros = b"\0" * 20000
+    B.append(("refused:gzip-decompressed-over-limit", [_req(b"POST", b"/", [H, (b"Content-Encoding", b"gzip"),
+                                                                            (b"Content-Length", str(len(_gz(zeros))).encode())],
+                                                            _gz(zeros), zeros)],
+              dict(R, decompress_request=True, max_body_size=1000, chunk_size=256)))
+    gzbody = b"abcdefghij" * 6
+    g = _gz(gzbody)
+    badcrc = g[:-8] + bytes([g[-8] ^ 0xFF]) + g[-7:]
+    B.append(("refused:gzip-bad-crc", [_req(b"POST", b"/", [H, (b"Content-Encoding", b"gzip"), (b"Content-Length", str(len(badcrc)).encode())],
+                                            badcrc, gzbody)], dict(R, decompress_request=True)))
+    badmagic = b"\x1f\x8c" + g[2:]
+    B.append(("refused:gzip-bad-magic-chunked", [_req(b"POST", b"/", [H, (b"Content-Encoding", b"gzip"), TE],
+                                                      _chunked([badmagic[:9], badmagic[9:]]), gzbody)],
+              dict(R, decompress_request=True, chunk_size=8)))
     return B
 
 
@@ -347,10 +415,10 @@ def shards(tier, seed):
     nb = len(bases(tier))
     if tier == "quick":
         # few, balanced shards: process start-up dominates the cost of a shard here
-        for j in range(7):
-            out.append({"kind": "offsets", "bases": list(range(j, nb, 7))})
-        for j in range(3):
-            out.append({"kind": "timeouts", "bases": list(range(j, nb, 3))})
+        for j in range(10):
+            out.append({"kind": "offsets", "bases": list(range(j, nb, 10))})
+        for j in range(4):
+            out.append({"kind": "timeouts", "bases": list(range(j, nb, 4))})
         out.append({"kind": "response", "part": 0})
         out.append({"kind": "response", "part": 1})
         return out
@@ -377,6 +445,20 @@ def _gen_cases(spec):
         yield from _gen_cases_one(spec)
 
 
+def _first_offset(base, tier):
+    """Quick tier, refused-body streams: fault points start three bytes before the end of the refused request's
+    header block (what lies before is a disconnect inside a well-formed head, enumerated on the other streams)."""
+    ref = base[2].get("_refused")
+    if tier != "quick" or not ref:
+        return 0
+    pos = 0
+    for i, (h, w, _) in enumerate(base[1]):
+        if i == ref[0]:
+            return max(0, pos + len(h) - 3)
+        pos += len(h) + len(w)
+    return 0
+
+
 def _gen_cases_one(spec):
     tier = spec["tier"]
     B = bases(tier)
@@ -388,6 +470,7 @@ def _gen_cases_one(spec):
         if len(data) > 2000:
             step = 37          # big bodies: every 37th offset inside the body plus every offset of the first 300 bytes
         offsets = [k for k in range(len(data) + 1) if k <= 300 or k % step == 0 or k >= len(data) - 8]
+        offsets = [k for k in offsets if k >= _first_offset(base, tier)]
         for k in offsets:
             for fi, fault in enumerate(REQ_FAULTS):
                 hs = HANDLERS if (tier == "thorough" and len(data) <= 2000) else [HANDLERS[(k + fi + spec["seed"]) % len(HANDLERS)]]
@@ -400,7 +483,7 @@ def _gen_cases_one(spec):
         if len(data) > 2000:
             ks = list(range(0, len(data) + 1, 211))
         else:
-            ks = list(range(len(data) + 1))
+            ks = list(range(_first_offset(base, tier), len(data) + 1))
         for k in ks:
             hs = HANDLERS if tier == "thorough" and len(data) <= 2000 else [HANDLERS[(k + spec["seed"]) % len(HANDLERS)]]
             for h in hs:
@@ -495,6 +578,7 @@ def execute(case, tier):
         if case.get("wplan") == "dribble" and point != "finish_undrained":
             wplan = iter([1, "block", 2, 1, "block", 3] * 20)
         kw = dict(base[2])
+        kw.pop("_refused", None)
         if case["fault"] == "timeout":
             kw["body_timeout"] = 1.0
             kw["idle_connection_timeout"] = 1.0
@@ -603,7 +687,8 @@ def decoded_bodies(base, sent):
     for h, w, d in base[1]:
         start = pos + len(h)
         end = start + len(w)
-        out.append({"decoded": d, "head_complete": sent >= start, "complete": sent >= end, "wire_sent": max(0, min(sent, end) - start)})
+        out.append({"decoded": d, "head_complete": sent >= start, "complete": sent >= end, "wire_sent": max(0, min(sent, end) - start),
+                    "refused": len(out) in base[2].get("_refused", ())})
         pos = end
     return out
 
@@ -675,6 +760,7 @@ def run_case(case, ctx):
             p["close"] += 1
             p["terminal"] = True
     bodies = decoded_bodies(base, sent)
+    server_refused = bool(lm.matching("Malformed HTTP message"))
     for rid in order:
         p = per[rid]
         w = dict(wit, rid=rid, counts={k: p[k] for k in ("headers", "finish", "close")}, data_len=len(p["data"]))
@@ -685,7 +771,16 @@ def run_case(case, ctx):
         ctx.count("started_requests")
         ctx.check(p["headers"] == 1, "accounting/headers_received-twice", "headers_received twice for one request", w)
         n = p["finish"] + p["close"]
-        if n == 0:
+        refused_here = rid < len(bodies) and bodies[rid]["refused"] and server_refused
+        if rid < len(bodies) and bodies[rid]["refused"]:
+            ctx.count("refusable_body_started_requests")
+            if server_refused:
+                ctx.count("refused_after_headers_received")
+        if n == 0 and refused_here:
+            ctx.check(False, "accounting/neither-finish-nor-close-after-server-refused-the-body",
+                      "a started request whose body framing the server then refused (400 + close) was never told finish "
+                      "or close", w)
+        elif n == 0:
             ctx.check(False, "accounting/neither-finish-nor-close", "a started request was never told finish or close", w)
         elif p["finish"] and p["close"]:
             ctx.check(False, "accounting/both-finish-and-close", "a started request was told finish AND connection close", w)
@@ -703,7 +798,11 @@ def run_case(case, ctx):
             ok = ctx.check(b["decoded"].startswith(p["data"]), "body/chunks-not-a-prefix-of-sent-body",
                            "concatenated data_received chunks are not a prefix of the body that was sent",
                            dict(w, got=p["data"][:80], want=b["decoded"][:80]))
-            if ok and p["finish"]:
+            if ok and p["finish"] and b["refused"]:
+                # "the whole body when told it finished" has no referent for a body whose framing is invalid / over
+                # the limit; whether such a message may finish is C02/C04's question, not this property's
+                ctx.count("unspecified_finish_of_refusable_body")
+            elif ok and p["finish"]:
                 ctx.check(p["data"] == b["decoded"] and b["complete"], "body/finish-with-short-body",
                           "finish() although the body was not delivered (or not even sent) completely",
                           dict(w, complete_sent=b["complete"]))
